@@ -8,6 +8,12 @@ from . import c16
 
 INT_DOM = dict(Z=np.arange(-3, 126), shell=np.arange(-3, 35), line=np.arange(-390, 7), trans=np.arange(-2, 18), auger_trans=np.arange(-3, 1001))
 STRS = [s for s in c16.DOM['compound'] if s is not None] + ['Pb', 'CaCO3', 'Polyethylene', 'Kapton Polyimide Film', 'He', 'H2SO4', '(', 'Fe2O3)', 'A-150 Tissue-Equivalent Plastic']
+# malformed formulas of every rejection class of the parser (the C++ wrappers and the Java twin must reject exactly what C rejects), at the
+# top level and inside bracket groups, plus well-formed relatives
+STRS += [' ', 'H 2', 'H2O ', 'H+', 'H2,5', 'H)', '(H', ')H(', '((H)', 'Ha', 'hO', 'Hoo', 'H0', 'H0.0', 'H00', '(H)0', 'H2.5.1', 'H..', 'H.', '.', '(.)', 'Db2O', 'H(Sg)', 'Bh0.5',
+         '2H', '(2H)', 'H(2)', '.Cl', '(.No4)', 'Yb4(Mg)a2.30Zr3', '.uNe', '(H)a', 'H1.a', '.5H', 'H.5', 'H5.', '()', 'H()', 'H1e2', 'H-1',
+         'Ca(.OH)2', '(.5H)2O', 'Ca((.OH))2', 'Ca5(.PO4)3F', 'Ca(PO4)a3F', 'Mg(OH)x2', 'K4(Fe(CN)e6)', '(OH)a2', '(NH4)a2SO4', 'Ca((OH)a)2', 'Ca5(PO4)a3F', 'Fe(CN)(CO)b2',
+         'Ca(OH)2.5', '(OH).5', 'Ca3(PO4)1.5', 'U0.95Pu.05O2', 'Ca5.522(PO.448)3OH', 'K4(Fe(CN)6)', '((H2O)2Na)0.5Cl', 'Pb(Zr0.52Ti0.48)O3', 'Fe0.9470000000O']
 CRYSTALS = [c for c in c16.CRYSTALS if c is not None] + ['Sapphire', 'InAs', 'CsF', 'KCl', 'LaB6', 'Mica']
 
 
